@@ -23,6 +23,11 @@ Local Lemma rawlen d t m :
   uniform cs d -> chain_wf P (limit_of d) t m -> length (raw d m) = N.to_nat (len m * cs).
 Proof. intros U W. eapply raw_len; eauto. Qed.
 
+Local Lemma szle (m : list N) sz : size_ok cs m sz -> sz <= len m * cs.
+Proof. intros H. eapply size_le_chain; eauto. Qed.
+Local Lemma clen s : Inv P cs s -> length (content s) = N.to_nat (size (fs s)).
+Proof. intros H. eapply content_length; eauto. Qed.
+
 (* what the loop keeps: a well-formed chain and a position not beyond its end
    (the size is not looked at inside the loop) *)
 Record WI (s : dstate) : Prop := {
@@ -192,14 +197,15 @@ Proof.
     assert (nw = [c]) by (rewrite Mp' in Em; apply app_inv_head in Em; congruence). subst nw.
     set (sa := with_fs s st') in *.
     assert (Ia : WI sa).
-    { constructor; unfold sa; cbn [with_fs fs dat]; auto. rewrite Mp', Ps'. unfold len. rewrite app_length. cbn [length]. lia. }
+    { constructor; unfold sa; cbn [with_fs fs dat]; auto. rewrite Mp', Ps'. unfold len in *. rewrite app_length. cbn [length]. lia. }
     destruct (IH mem sa Ia) as (k & new & g & Post).
     { unfold need in *. unfold sa. cbn [with_fs fs]. rewrite Mp', Ps'.
-      replace (pos (fs s) <? len (map (fs s) ++ [c]) * cs) with true by (unfold len; rewrite app_length; cbn [length]; lia).
-      replace (pos (fs s) <? len (map (fs s)) * cs) with false in Hf by lia. lia. }
+      assert (X1 : pos (fs s) < len (map (fs s) ++ [c]) * cs) by (unfold len in *; rewrite app_length; cbn [length]; lia).
+      destruct (N.ltb_spec (pos (fs s)) (len (map (fs s) ++ [c]) * cs)) as [_|X2]; [|lia].
+      destruct (N.ltb_spec (pos (fs s)) (len (map (fs s)) * cs)) as [X3|_]; lia. }
     destruct Post as (K & I2 & L2 & Sz & Ps & Mp & Nw & Lg & Rw & Fd & Ft & Lt2 & Kp & Res).
-    unfold sa in Sz, Ps, Mp, Rw, Fd, Ft, Lt2, Kp, L2. cbn [with_fs fs dat] in Sz, Ps, Mp, Rw, Fd, Ft, Lt2, Kp, L2.
-    rewrite ?Sz', ?Ps', ?Mp' in *.
+    subst sa. cbn [with_fs fs dat] in Sz, Ps, Mp, Rw, Fd, Ft, Lt2, Kp, L2.
+    rewrite Sz' in Sz. rewrite Ps' in Ps, Rw, Kp. rewrite Mp' in Mp, Rw, Kp.
     assert (Okc : cl_ok (dat s) c = true).
     { apply (free_ok _ (tbl (fs s))). apply Fr. left. reflexivity. }
     exists k, (c :: new), (getc (dat s) c ++ g). unfold loop_post.
@@ -207,8 +213,8 @@ Proof.
     split; [rewrite Mp, <- app_assoc; reflexivity|]. split; [|split; [|split; [|split; [|split; [|split; [|split]]]]]].
     + right. destruct Nw as [->|Nw]; [|exact Nw]. rewrite app_nil_r in Mp. rewrite Mp, Ps.
       assert (0 < k)%nat.
-      { apply Kp; [|exact Hm]. unfold len. rewrite app_length. cbn [length]. lia. }
-      unfold len. rewrite app_length. cbn [length]. unfold len in Ep. lia.
+      { apply Kp; [|exact Hm]. unfold len in *. rewrite app_length. cbn [length]. lia. }
+      unfold len in *. rewrite app_length. cbn [length]. lia.
     + rewrite app_length, Lg, (getc_length cs (dat s) c U Okc). cbn [length]. lia.
     + rewrite Rw, raw_app. unfold raw at 2. cbn [List.map concat]. rewrite app_nil_r, <- app_assoc. reflexivity.
     + exact Fd.
@@ -218,5 +224,181 @@ Proof.
     + congruence.
     + intros X _. lia.
     + exact Res.
+Qed.
+
+(* --------------------------------------------------------------- after the loop *)
+Lemma size_ok_within (m : list N) a b :
+  size_ok cs m a -> a <= b -> b <= len m * cs -> size_ok cs m b.
+Proof.
+  intros S Hab Hb. destruct (N.eq_dec b 0) as [->|Hb0].
+  { right. destruct S as [[Q1 Q2]|[Q1 Q2]]; [lia|]. split; [reflexivity|exact Q2]. }
+  left. split; [lia|]. symmetry. apply cdiv_unique; [exact CS|lia|].
+  destruct S as [[Q1 Q2]|[Q1 Q2]].
+  - destruct (cdiv_bounds a cs CS Q1) as [[B1 B2] B3]. rewrite <- Q2 in *. lia.
+  - unfold len in *. destruct m as [|x [|y m]]; cbn [length] in *; lia.
+Qed.
+
+(* cutting the spliced chain at the new size *)
+Lemma content_splice (raw1 g b : list N) (p sz1 : nat) :
+  (sz1 <= length raw1)%nat -> (p <= sz1)%nat -> (p + length b <= length (raw1 ++ g))%nat ->
+  firstn (Nat.max sz1 (p + length b)) (splice (raw1 ++ g) p b) =
+  firstn p (firstn sz1 raw1) ++ b ++ skipn (p + length b) (firstn sz1 raw1).
+Proof.
+  intros H1 H2 H3. unfold splice. rewrite firstn_firstn. replace (Nat.min p sz1) with p by lia.
+  assert (E1 : firstn p (raw1 ++ g) = firstn p raw1).
+  { rewrite firstn_app. replace (p - length raw1)%nat with 0%nat by lia. cbn [firstn]. apply app_nil_r. }
+  rewrite E1.
+  assert (Lp : length (firstn p raw1) = p) by (rewrite firstn_length; lia).
+  rewrite firstn_app, Lp. rewrite (firstn_all2 (n := Nat.max sz1 (p + length b)) (firstn p raw1)) by lia.
+  f_equal. rewrite firstn_app. rewrite (firstn_all2 (n := (Nat.max sz1 (p + length b) - p)%nat) b) by lia.
+  f_equal. destruct (Nat.le_gt_cases sz1 (p + length b)) as [C|C].
+  - replace (Nat.max sz1 (p + length b) - p - length b)%nat with 0%nat by lia. cbn [firstn].
+    symmetry. apply skipn_all2. rewrite firstn_length. lia.
+  - rewrite skipn_firstn_comm. replace (Nat.max sz1 (p + length b) - p - length b)%nat with (sz1 - (p + length b))%nat by lia.
+    rewrite skipn_app, firstn_app. rewrite skipn_length.
+    replace (sz1 - (p + length b) - (length raw1 - (p + length b)))%nat with 0%nat by lia.
+    cbn [firstn]. apply app_nil_r.
+Qed.
+
+(* write() from the point where the position is inside the file (after the padding) *)
+Definition write_rest (size0 : N) (buf : list N) (s1 : dstate) : dstate * res out :=
+  let r := write_loop P cs (write_fuel buf s1) buf s1 in
+  let s2 := fst r in
+  let st3 := if size0 <? pos (fs s2) then set_size true (pos (fs s2)) (fs s2) else fs s2 in
+  (with_fs s2 (norm cs true st3), match snd r with Ok _ => Ok (ONum (len buf)) | Err e => Err e end).
+
+Lemma write_rest_spec size0 buf s1 :
+  Inv P cs s1 -> pos (fs s1) <= size (fs s1) -> size (fs s1) = N.max size0 (pos (fs s1)) ->
+  let r := write_rest size0 buf s1 in let s3 := fst r in
+  Inv P cs s3 /\ length (dat s3) = length (dat s1) /\
+  (forall c, 2 <= c -> ~ In c (map (fs s3)) -> getc (dat s3) c = getc (dat s1) c) /\
+  (forall c, ~ In c (map (fs s3)) -> get (tbl (fs s3)) c = get (tbl (fs s1)) c) /\
+  length (tbl (fs s3)) = length (tbl (fs s1)) /\
+  (exists new, map (fs s3) = map (fs s1) ++ new) /\
+  exists k, abs s3 = a_write (abs s1) (firstn k buf) /\
+    match snd r with
+    | Ok o => k = length buf /\ o = ONum (len buf)
+    | Err e => e = OSError_ENOSPC /\ (k < length buf)%nat
+    end.
+Proof.
+  intros I Hp Hs. pose proof I as [[W S] U L]. cbv zeta. unfold write_rest.
+  pose proof (szle _ _ S) as S1.
+  assert (I1 : WI s1) by (constructor; auto; lia).
+  destruct (write_loop_spec (write_fuel buf s1) buf s1 I1) as (k & new & g & Post).
+  { unfold need, write_fuel. destruct (pos (fs s1) <? len (map (fs s1)) * cs); lia. }
+  set (r := write_loop P cs (write_fuel buf s1) buf s1) in *. set (s2 := fst r) in *.
+  destruct Post as (K & I2 & L2 & Sz & Ps & Mp & Nw & Lg & Rw & Fd & Ft & Lt2 & _ & Res).
+  destruct I2 as [W2 U2 Lm2 Pp2].
+  set (p := pos (fs s1)) in *. set (sz1 := size (fs s1)) in *.
+  set (st3 := if size0 <? pos (fs s2) then set_size true (pos (fs s2)) (fs s2) else fs s2).
+  cbn [fst snd norm].
+  assert (E3 : sfat st3 = sfat (fs s2) /\ map st3 = map (fs s2) /\ pos st3 = pos (fs s2) /\
+               size st3 = N.max sz1 (pos (fs s2))).
+  { unfold st3. destruct (N.ltb_spec size0 (pos (fs s2))); cbn [set_size sfat map pos size]; repeat split; lia. }
+  destruct E3 as (E3f & E3m & E3p & E3s).
+  assert (S3 : size_ok cs (map (fs s2)) (N.max sz1 (pos (fs s2)))).
+  { destruct new as [|c0 new0].
+    - rewrite app_nil_r in Mp. rewrite Mp in *. apply (size_ok_within _ sz1); [exact S|lia|lia].
+    - destruct Nw as [Nw|Nw]; [discriminate|].
+      assert (X : len (map (fs s1)) * cs <= (len (map (fs s2)) - 1) * cs).
+      { apply N.mul_le_mono_r. rewrite Mp. unfold len. rewrite app_length. cbn [length]. lia. }
+      replace (N.max sz1 (pos (fs s2))) with (pos (fs s2)) by lia.
+      left. split; [lia|]. symmetry. apply cdiv_unique; [exact CS|lia|lia]. }
+  assert (I3 : Inv P cs (with_fs s2 st3)).
+  { constructor; cbn [with_fs fs dat]; auto. unfold st_wf, file_wf, tbl. rewrite E3f, E3m, E3s. split; [exact W2|exact S3]. }
+  split; [exact I3|]. cbn [with_fs fs dat]. unfold tbl. rewrite E3f, E3m. fold (tbl (fs s2)).
+  split; [exact L2|]. split; [exact Fd|]. split; [exact Ft|]. split; [exact Lt2|]. split; [exists new; exact Mp|].
+  exists k. split.
+  - unfold abs, a_write. cbn [abytes apos with_fs fs dat]. rewrite E3p. f_equal; [|rewrite firstn_length; lia].
+    unfold content. cbn [with_fs fs dat]. rewrite E3m, E3s, Rw.
+    pose proof (rawlen _ _ _ U W) as RL. fold sz1 p.
+    assert (Lc : length (firstn (N.to_nat sz1) (raw (dat s1) (map (fs s1)))) = N.to_nat sz1)
+      by (rewrite firstn_length; lia).
+    rewrite Lc. replace (N.to_nat p - N.to_nat sz1)%nat with 0%nat by lia. cbn [repeat]. rewrite app_nil_r.
+    assert (Lb : length (firstn k buf) = k) by (rewrite firstn_length; lia).
+    replace (N.to_nat (N.max sz1 (pos (fs s2)))) with (Nat.max (N.to_nat sz1) (N.to_nat p + length (firstn k buf))) by lia.
+    apply content_splice; [lia|lia|].
+    rewrite app_length, RL, Lg, Lb. rewrite Mp in Pp2. unfold len in *. rewrite app_length in Pp2. lia.
+  - destruct (snd r) as [u|e]; [split; [exact Res|reflexivity]|]. destruct Res as (-> & Kl & _). split; [reflexivity|exact Kl].
+Qed.
+
+(* ------------------------------------------------------------------- write() *)
+Lemma a_write_after_pad a b :
+  alen a <= apos a -> a_write (a_truncate a (apos a)) b = a_write a b.
+Proof.
+  intros H. unfold a_write, a_truncate, alen in *. cbn [abytes apos].
+  rewrite (firstn_all2 (n := N.to_nat (apos a)) (abytes a)) by lia.
+  rewrite app_length, repeat_length.
+  replace (N.to_nat (apos a) - (length (abytes a) + (N.to_nat (apos a) - length (abytes a))))%nat with 0%nat by lia.
+  cbn [repeat]. rewrite app_nil_r. reflexivity.
+Qed.
+
+Lemma write_d_unfold buf s :
+  write_d P cs true buf s =
+  let pad := if size (fs s) <? pos (fs s) then truncate_d P cs true None s else (s, Ok (ONum 0)) in
+  match snd pad with
+  | Err e => (fst pad, Err e)
+  | Ok _ => write_rest (size (fs s)) buf (fst pad)
+  end.
+Proof. reflexivity. Qed.
+
+Theorem write_refines buf s :
+  Inv P cs s ->
+  let r := write_d P cs true buf s in let s' := fst r in
+  Inv P cs s' /\ length (dat s') = length (dat s) /\
+  (forall c, 2 <= c -> ~ In c (map (fs s')) -> getc (dat s') c = getc (dat s) c) /\
+  (forall c, ~ In c (map (fs s')) -> get (tbl (fs s')) c = get (tbl (fs s)) c) /\
+  length (tbl (fs s')) = length (tbl (fs s)) /\
+  (exists new, map (fs s') = map (fs s) ++ new) /\
+  match snd r with
+  | Ok o => spec_step cs (abs s) (OWrite buf) = (abs s', Ok o)
+  | Err e => e = OSError_ENOSPC /\
+      ((abs s' = abs s /\ alen (abs s) < apos (abs s)) \/
+       exists k, (k < length buf)%nat /\ abs s' = a_write (abs s) (firstn k buf))
+  end.
+Proof.
+  intros I. cbv zeta. rewrite write_d_unfold. cbv zeta.
+  pose proof (clen s I) as CL.
+  destruct (N.ltb_spec (size (fs s)) (pos (fs s))) as [G|G].
+  - (* the hole is padded first *)
+    pose proof (truncate_refines P POK MV cs CS None s I) as TR.
+    pose proof (truncate_frame P POK MV cs CS None s I) as TF. cbv zeta in TR, TF.
+    set (r1 := truncate_d P cs true None s) in *. set (s1 := fst r1) in *.
+    destruct TR as (I1 & L1 & P1 & TR). destruct TF as (Fd1 & Ft1 & Lt1 & Mp1).
+    destruct (Mp1 ltac:(cbn [tr_arg]; lia)) as (new1 & Mp1').
+    destruct (snd r1) as [o1|e1].
+    2:{ destruct TR as (-> & Ea & Ef & _). cbn [fst snd]. fold s1.
+        split; [exact I1|]. split; [exact L1|]. split; [exact Fd1|].
+        split; [intros c Hc; apply Ft1; [rewrite <- Ef; exact Hc|exact Hc]|]. split; [exact Lt1|].
+        split; [exists new1; exact Mp1'|]. split; [reflexivity|]. left. split; [exact Ea|].
+        unfold alen, abs. cbn [abytes apos]. rewrite CL. lia. }
+    destruct TR as (TS & Sz1). cbn [tr_arg] in Sz1.
+    assert (Ea : abs s1 = a_truncate (abs s) (apos (abs s))).
+    { apply (f_equal fst) in TS. unfold spec_step in TS. cbn [fst] in TS. symmetry. exact TS. }
+    pose proof (write_rest_spec (size (fs s)) buf s1 I1 ltac:(lia) ltac:(lia)) as WR. cbv zeta in WR.
+    set (r := write_rest (size (fs s)) buf s1) in *. set (s3 := fst r) in *.
+    destruct WR as (I3 & L3 & Fd3 & Ft3 & Lt3 & (new3 & Mp3) & k & Ea3 & Res).
+    assert (Sub : forall c, ~ In c (map (fs s3)) -> ~ In c (map (fs s1)) /\ ~ In c (map (fs s))).
+    { intros c Hc. split; intros X; apply Hc; rewrite Mp3; apply in_or_app; left; [exact X|].
+      rewrite Mp1'. apply in_or_app. left. exact X. }
+    split; [exact I3|]. split; [congruence|].
+    split; [intros c H2 Hc; rewrite (Fd3 c H2 Hc); apply Fd1; [exact H2|apply (Sub c Hc)]|].
+    split; [intros c Hc; rewrite (Ft3 c Hc); apply Ft1; apply (Sub c Hc)|]. split; [congruence|].
+    split; [exists (new1 ++ new3); rewrite Mp3, Mp1', app_assoc; reflexivity|].
+    assert (Ew : abs s3 = a_write (abs s) (firstn k buf)).
+    { rewrite Ea3, Ea. apply a_write_after_pad. unfold alen, abs. cbn [abytes apos]. rewrite CL. lia. }
+    destruct (snd r) as [o|e].
+    + destruct Res as (-> & ->). rewrite firstn_all in Ew. unfold spec_step. rewrite Ew. reflexivity.
+    + destruct Res as (-> & Kl). split; [reflexivity|]. right. exists k. split; [exact Kl|exact Ew].
+  - replace (snd (s, @Ok out (ONum 0))) with (@Ok out (ONum 0)) by reflexivity. cbv iota. cbn [fst].
+    pose proof I as [[W S] U L].
+    pose proof (write_rest_spec (size (fs s)) buf s I G ltac:(lia)) as WR. cbv zeta in WR.
+    set (r := write_rest (size (fs s)) buf s) in *. set (s3 := fst r) in *.
+    destruct WR as (I3 & L3 & Fd3 & Ft3 & Lt3 & Mp3 & k & Ea3 & Res).
+    split; [exact I3|]. split; [exact L3|]. split; [exact Fd3|]. split; [exact Ft3|]. split; [exact Lt3|].
+    split; [exact Mp3|].
+    destruct (snd r) as [o|e].
+    + destruct Res as (-> & ->). rewrite firstn_all in Ea3. unfold spec_step. rewrite Ea3. reflexivity.
+    + destruct Res as (-> & Kl). split; [reflexivity|]. right. exists k. split; [exact Kl|exact Ea3].
 Qed.
 End Data.
